@@ -5,6 +5,9 @@ HERE = os.path.dirname(os.path.dirname(os.path.abspath(__file__)))
 
 # id -> (technique, level text, level note, design ref)
 CHECKS = {
+ "C09": ("model-based lock-step testing of delivered clocks against a reference CPU/interrupt model over proptest-generated programs in three stepping modes, with shrinking",
+         "Generated structured programs run instruction-stepped (interpreter build), block-stepped (interpreter build) and block-stepped (jit build) in lock-step with the reference machine; after every step the clocks delivered at the MemoryAreas boundary must equal 4 x the machine cycles the reference CPU consumed (+5 carried from a dispatch, exactly 4 when suspended, never less than 4), every device must be where the twin that received the reference's clocks is, the interrupt check must follow the catch-up, and last_block_cycle_length must match; run_frame() from the end point must return within two frames plus one block.",
+         "trusted: models::sm83 cycle counts, models::irq; twin bus/devices from the repository; runs end at undefined opcodes / the HALT quirk (counted); non-returning run_frame is reported via SIGALRM", "DESIGN.md §5 C09"),
  "C03": ("stateful differential testing (warm cache / cold cache / interpreter) over proptest operation histories with shrinking",
          "Generated histories of block executions, guest bank switches through bank-0 trampolines, host bank-register writes, switch-backs and fall-through into the switchable bank run on multi-bank MBC1/MBC3 ROMs whose banks hold different code at the same slot addresses; the jit build with its persistent cache, the jit build with an empty cache before every step and the interpreter build must agree on all scalars and the whole memory after every step.",
          "interpreter build is the reference; self-switching blocks in the switchable region (known finding of C01) are excluded by construction / counted; translation-heavy, so half of the shards take part", "DESIGN.md §5 C03"),
